@@ -83,6 +83,7 @@ CHECKS = {
     "C03": {
         "quick": [
             {"name": P + "ctrlers/types.ZZ_C03_I1", "reach": ["I1 equal encodings", "I1 different encodings"], "bound": "two symbolic transactions of the same type (8 types): all numeric fields symbolic over their full range (incl. every payload field), byte/string fields drawn from two values; equal signed encodings => equal fields"},
+            {"name": P + "ctrlers/types.ZZ_C03_I7", "reach": ["I7 end", "I7 different chains"], "bound": "one symbolic transaction (8 types) and two chain ids from a menu of 11 (lengths 1..50; ids sharing their first 31/32/33/49 bytes; ids that are prefixes of each other): RLP and protobuf pre-images equal only for equal chain ids"},
             {"name": NODE + "ZZ_C03_I23", "reach": ["I23 success", "I23 forged rejected", "I23 honest failure"] + OK_ALL, "bound": TXB + "; signature: honest | signed by another key | signed for another chain id | one of 8 fields (amount, nonce, gas, receiver, time, version, sender, payload/gas price) altered after signing"},
             {"name": NODE + "ZZ_C03_I4", "reach": ["I4 end", "I4 honest second tx accepted"], "bound": "an honest transfer (symbolic amount) is delivered; then, in the same or the next block, a second transaction of the same sender (transfer or set-document, symbolic amount, other receiver, the then-current nonce) carrying the FIRST transaction's signature; crypto.Sig2Addr's own body is executed (only the curve recovery under it is a stub)"},
             {"name": NODE + "ZZ_C03_I5", "reach": ["I5 end"], "bound": "twin replicas, 4 validators (stake limiter active); replica B's block 3 starts with a forged transaction (delegation / unbonding / transfer / deployment from the block menu, signed with another account's key, optionally to an address without account), then both deliver the same honest menu transaction; block 4 with one more; transaction results, validator updates and application hashes compared"},
